@@ -20,7 +20,7 @@ type chooser struct {
 	max    int
 	timed  bool // windows of a few ticks and T steps
 	wild   int  // 0 = always possible steps; n>0: one step in n is not checked for possibility
-	bad    bool // loads that fail in Provision may occur (they trigger the known finding)
+	bad    bool // loads that fail in Provision may occur
 	n      int
 	ticks  int
 	loaded bool
@@ -262,7 +262,7 @@ func (p *prop) Generate(rng *core.Rand, tier string, emit func(string)) {
 				if r.Chance(1, 10) {
 					K = 4 + r.Intn(2)
 				}
-				c := &chooser{rng: r, max: 3 + r.Intn(maxLen), timed: j.timed, wild: j.wild, bad: r.Chance(1, 6)}
+				c := &chooser{rng: r, max: 3 + r.Intn(maxLen), timed: j.timed, wild: j.wild, bad: r.Chance(1, 2)}
 				if j.timed {
 					c.max = 4 + r.Intn(14)
 				}
